@@ -712,6 +712,13 @@ func checkCase(c Case) (Outcome, error) {
 		}
 		differ = drv
 	}
+	if c.Dialect == "postgres" && c.Flavour != "" {
+		drv, err := gm.OpenPostgres(c.Flavour)
+		if err != nil {
+			return out, fmt.Errorf("harness: %v", err)
+		}
+		differ = drv
+	}
 	var changes []schema.Change
 	switch c.Level {
 	case "realm":
